@@ -65,6 +65,12 @@ chk("C20", "vexplore",
     "Trusted: 60 s watchdog for 'handler blocked'. The dispatch loop of cmd/keymaster-eventmond/main() is not callable and is out of scope.",
     "DESIGN.md 3 C20")
 
+chk("C04", "venum",
+    "exhaustive enumeration of the producer x consumer matrix, all single-claim mutations re-signed with the real key, key/algorithm substitutions and every single-byte substitution / truncation / segment deletion of each valid artefact on the real token consumers, against a reference acceptance model",
+    "For four deployments (RSA, RSA+Ed25519 CA, ECDSA primary CA, RSA plus an extra trusted public key) the server's own code paths produce one artefact of each kind (session cookie, upgraded cookie, CLI token, signed storage record, OIDC code with and without PKCE, ID token, access token); every artefact is presented to every consumer (cookie gates of three routes, cookie upgrade, logout, /sendAuthDocument, /verifyAuthToken, GetSigned through primary and cache store, token endpoint with secret and with PKCE, userinfo via header and form). For the matching consumer each claim is removed/altered individually and re-signed with the real key, ~25 key/algorithm attacks are applied, and every single-byte substitution (two values), truncation length and segment deletion of the compact serialisation is tried; accept iff the model accepts, and a rejection leaves cookies, both databases and the shared maps unchanged.",
+    "Trusted: go-jose for producing attack tokens; cryptographic unforgeability for multi-byte changes. Boundary cases (exp==now, real key with other algorithm, audience naming this server second) are observed only.",
+    "DESIGN.md 3 C04")
+
 NOT_YET = {
 }
 
